@@ -69,6 +69,17 @@ type Env struct {
 	dirSeq   int
 }
 
+// NewEnv builds an Env outside Main (used by checks that execute a case in a
+// child process): tmpRoot is the directory TempDir allocates under, known the
+// enabled matcher names.
+func NewEnv(property, tier, tmpRoot string, known []string) *Env {
+	e := &Env{Property: property, Tier: tier, Seed: 1, TmpRoot: tmpRoot, known: map[string]bool{}}
+	for _, k := range known {
+		e.known[k] = true
+	}
+	return e
+}
+
 // Thorough reports whether the thorough tier is running.
 func (e *Env) Thorough() bool { return e.Tier == "thorough" }
 
